@@ -13,9 +13,6 @@ pub mod stubs;
 pub mod tracing_stubs;
 
 #[cfg(kani)]
-#[macro_use]
-pub mod zz_witness;
-#[cfg(kani)]
 mod c18_spans;
 #[cfg(kani)]
 mod c18_plan;
